@@ -95,6 +95,76 @@ static Outcome runSched(const vj::Value& c)
 	return Outcome();
 }
 
+// ---- (a2) ThreadGroup start/join interleavings (spec/ThreadGroupLife.tla) ---------------------------
+struct GMember : public Thread
+{
+	volatile int* eff;
+	GMember() : eff(0) {}
+	explicit GMember(volatile int* e) : eff(e) {}
+	void run() { (*eff)++; }
+};
+struct GObs
+{
+	ThreadGroup<GMember>* g;
+	volatile int* eff;
+	int nw;
+	const vj::Value* steps;
+	std::string err;
+};
+static void observeGroup(int decision, void* arg)
+{
+	GObs& o = *(GObs*)arg;
+	if (!o.err.empty() || decision == 0) return;
+	size_t k = (size_t)decision - 1;
+	if (k >= o.steps->size()) return;
+	const vj::Value& e = (*o.steps)[k];
+	for (int w = 0; w < o.nw; w++)
+	{
+		bool fin = o.g->_threads[w].finished();
+		int eff = o.eff[w];
+		if (fin != e["fin"][w].b || eff != e["eff"][w].i())
+		{
+			char b[200];
+			snprintf(b, sizeof b, "after step %zu (thread %d): member %d finished()=%d effect=%d, specification says finished=%d effect=%d",
+			         k + 1, e["t"].i(), w + 1, (int)fin, eff, (int)e["fin"][w].b, e["eff"][w].i());
+			o.err = b;
+			return;
+		}
+	}
+}
+static Outcome runGroupSched(const vj::Value& c)
+{
+	const vj::Value& steps = c["steps"];
+	int nw = c["nw"].i();
+	std::vector<int> plan;
+	for (size_t i = 0; i < steps.size(); i++) plan.push_back(steps[i]["t"].i());
+	volatile int eff[8] = { 0 };
+	ThreadGroup<GMember> g;
+	for (int w = 0; w < nw; w++) g << GMember(&eff[w]);
+	GObs o;
+	o.g = &g;
+	o.eff = eff;
+	o.nw = nw;
+	o.steps = &steps;
+	static const int points[] = { vsched::POST_CREATE, vsched::PRE_JOIN, vsched::POST_JOIN, vsched::PRE_FIN };
+	vsched::Sched& S = vsched::S();
+	S.observer = observeGroup;
+	S.observerArg = &o;
+	vsched::begin(plan, points, 4);
+	g.start();
+	g.join();
+	bool allFin = true;
+	for (int w = 0; w < nw; w++) if (!g._threads[w].finished() || eff[w] != 1) allFin = false;
+	vsched::end();
+	S.observer = 0;
+	int mism = S.mismatches;
+	if (!o.err.empty()) return Outcome::fail("ThreadGroup: " + o.err);
+	if (!allFin) return Outcome::fail("ThreadGroup: after join() a member has not finished or did not run exactly once");
+	if (mism) return Outcome::fail("ThreadGroup: schedule could not be followed (" + std::to_string(mism) + " mismatching decisions)");
+	if (S.pos != S.plan.size()) return Outcome::fail("ThreadGroup: run ended after " + std::to_string(S.pos) + " of " + std::to_string(S.plan.size()) + " planned steps");
+	return Outcome();
+}
+
 // ---- (b) parallel_for, ThreadGroup, parallel_invoke ------------------------------------------------
 static const int OFF = 16, NCNT = 96;
 
@@ -183,6 +253,7 @@ static Outcome runCase(const vj::Value& c)
 {
 	const std::string& k = c["k"].s();
 	if (k == "sched") return runSched(c);
+	if (k == "gsched") return runGroupSched(c);
 	if (k == "pfor") return runPfor(c);
 	if (k == "group") return runGroup(c);
 	if (k == "invoke") return runInvoke(c);
